@@ -34,8 +34,9 @@ def model(check, name, gor, maxcalls, panic, nilfirst=True, maxobj=6, timeout=18
     return r
 
 
-def histories(check, vh, name, args, full, timeout=7200):
+def histories(check, vh, name, args, full, timeout=None):
     """Run histories on the real code, then validate the recorded stream with Trace_Pools."""
+    timeout = timeout or (900 if check.tier == "quick" else 14400)
     wd = common.workdir("%s-%s" % (check.prop, name))
     common.run([vh, "run-history", "-out", wd] + (["-full"] if full else []) + [str(a) for a in args], timeout=timeout)
     meta = json.load(open(os.path.join(wd, "meta.json")))
